@@ -99,13 +99,18 @@ func (is *InsertIntoStatement) Materialize(aggRunner *AggRunner, catDir *catalog
 	// Get the time with nanoseconds included if available, prior to projection
 	// indexTime, err := inputColumnSeries.GetTime()
 
-	// Columns are matched - Now project out all but the target column names
+	// Columns are matched - Now project out all but the target column names.
+	// The sub-second part of variable-length records travels in the Nanoseconds column: keep it,
+	// the writer needs it to place the records inside their interval.
+	isVariableLength := inputColumnSeries.GetColumn("Nanoseconds") != nil
+	if isVariableLength {
+		targetColumnNames = append(targetColumnNames, "Nanoseconds")
+	}
 	inputColumnSeries.Project(targetColumnNames)
 
 	/*
 		Write the data
 	*/
-	isVariableLength := inputColumnSeries.GetColumn("Nanoseconds") != nil
 
 	csm := io.NewColumnSeriesMap()
 	csm.AddColumnSeries(*targetMK, inputColumnSeries)
